@@ -421,8 +421,11 @@ func resolveLoad(v ssa.Value) ssa.Value {
 	if last != nil {
 		return last
 	}
+	if _, isFree := cell.(*ssa.FreeVar); isFree {
+		return v // written by other functions too
+	}
 	sts := storesTo(u.Parent(), cell)
-	if len(sts) == 1 {
+	if len(sts) == 1 && dominates(sts[0], u) && !escapesToClosure(cell) {
 		return sts[0].Val
 	}
 	return v
